@@ -6,7 +6,8 @@ from .common import setup_import_path
 
 setup_import_path()
 
-KEY_ALPHABET = list("abcxyzABCXYZ0189_- .'\"\\$/") + ["é", "ß", "İ", "ǅ", "ﬁ", "ж", "Ж", "中", "٣", "３", "²", "ñ", "Å", "\n", "ı"]
+KEY_ALPHABET = list("abcxyzABCXYZ0189_- .'\"\\$/") + ["é", "ß", "İ", "ǅ", "ﬁ", "ж", "Ж", "中", "٣", "３", "²", "ñ", "Å", "\n", "ı",
+                                                      "\u2028", "\x85", "\u2029", "\x0c", "\x1c", "\r", "\t"]
 KEYWORD_KEYS = ["class", "def", "import", "list", "dict", "type", "id", "str", "None", "True", "async", "print", "object",
                 "datetime", "date", "time", "schema", "field", "Field", "self", "json", "copy", "Optional", "List", "Any",
                 "BaseModel", "attr", "dataclass", "Literal", "Union"]
